@@ -4,6 +4,9 @@ import json, os, subprocess
 ROOT = os.path.dirname(os.path.abspath(__file__))
 ALL = ["C%02d" % i for i in range(1, 21)]
 CHECKS = {
+ "C15": dict(engine="tlc+vh-replay", technique="TLA+ acceptance predicate over response member sequences and error-code table (WireResp.tla) enumerated / checked by TLC; replayed into the real parser; i32 sweep against the exported table; sampled value round trips",
+             text="WireResp.tla states when a response object is accepted (as a predicate over member sequences, so order and duplication are covered) and the code<->kind table with its round-trip invariants (as-is config documents F11); TLC enumerates all 66430 member sequences and the probe codes; each is replayed into serde_json::from_str::<Response<_>> / ErrorCode; the harness additionally sweeps i32 codes against the table TLC exported and round-trips seeded values of every public wire type.",
+             note="member classes exhaustive; concrete values, ids and payloads are seeded samples; full 2^32 sweep only in the thorough tier", ref="5 (C15)"),
  "C14": dict(engine="tlc+vh-replay", technique="independent matcher written in TLA+ (HostFilter.tla) enumerated by TLC over all bounded allow-lists x request forms; differential replay through the real HostFilterLayer",
              text="HostFilter.tla defines label-sequence matching with one-or-more-label wildcards, port classes, authority determination from Host header and request target, and the allowed verdict set (soundness for every list, completeness where one pattern matches); TLC checks the matcher's own meta-properties and emits ~140k (list, request) pairs which are sent through the real layer around a counting inner service.",
              note="hosts/patterns over 3 labels; entries and requests spelled in several concrete ways (schemes with default ports, userinfo, case, trailing dot, zero-padded ports, malformed headers)", ref="5 (C14)"),
